@@ -1710,6 +1710,15 @@ class _FormatInferInstance(Visitor):
         v = _logb_operand(d)
         if v is None:
             return []
+        # `d` must hold the exponent itself: under a context that rounds,
+        # saturates or wraps `logb`'s result (`UINT8` turns -16 into 240) the
+        # comparison says nothing about `v`
+        assert isinstance(d, AssignDef) and isinstance(d.site, Assign)
+        logb_ctx = self._resolve_active_ctx(d.site.expr)
+        if logb_ctx is not REAL and not round_is_identity(
+            exact_logb(self.by_expr.get(v)), logb_ctx,
+        ):
+            return []
         d_v = self.def_use.find_def_from_use(v)
         # the stored bound, not `_bound_of_def`: this runs while the mask that
         # method reads is still being built, and only the precision is wanted
